@@ -250,14 +250,34 @@ func (r *Report) Case(desc interface{}, nontrivialKey string, run func() []Findi
 		sort.Strings(k)
 		return strings.Join(k, "|")
 	}
+	// Re-execute twice more. The harnesses are deterministic (one goroutine, fresh world per case), so a
+	// differing verdict means the code under test itself is nondeterministic (map iteration order, pools,
+	// goroutines): a finding seen in any execution is reported, and the disagreement is noted in the evidence.
 	s1 := sig(f)
+	all := map[string]Finding{}
+	for _, x := range f {
+		all[x.Key] = x
+	}
+	differ := false
 	for i := 0; i < 2; i++ {
-		if s2 := sig(run()); s2 != s1 {
-			r.Violate("FLAKY:"+s1, fmt.Sprintf("case %v: findings differ between executions: %q vs %q", desc, s1, s2), desc)
-			return
+		f2 := run()
+		if sig(f2) != s1 {
+			differ = true
+		}
+		for _, x := range f2 {
+			if _, ok := all[x.Key]; !ok {
+				all[x.Key] = x
+			}
 		}
 	}
-	for _, x := range f {
+	if differ {
+		r.Note("cases-with-nondeterministic-verdict")
+	}
+	for _, k := range SortedKeys(all) {
+		x := all[k]
+		if differ {
+			x.Msg += " [verdict differed between 3 executions of this case: the code under test is nondeterministic here]"
+		}
 		r.Violate(x.Key, x.Msg, desc)
 	}
 }
